@@ -1,7 +1,7 @@
 (* generated on every run by tools/c15.py from /repo/src/replication/shared_core.rs *)
 From Coq Require Import List String Bool.
 Import ListNotations.
-Open Scope string_scope.
+Local Open Scope string_scope.
 Definition shared_shape : list (string * bool) :=
   [("info", true);
    ("key_pair", true);
